@@ -39,7 +39,10 @@ def gen(x):
     w.append("def diagWhatFormat : String := %s" % lean_str(m.group(2)))
     w.append("def diagWhatLineBase : Nat := %s  -- get_line() + ..." % m.group(3))
     w.append("def diagWhatColumnBase : Nat := %s  -- get_column() + ..." % m.group(4))
-    x.need(re.search(r"strncpy\(\s*buf\s*,\s*message\s*,\s*%s\s*\)" % m.group(1), inp), "input.cpp:InputError null-reference strncpy")
+    m2 = x.need(re.search(r"strncpy\(\s*buf\s*,\s*message\s*,\s*(\d+)\s*\)\s*;\s*buf\[\s*(\d+)\s*\]\s*=\s*0\s*;", inp),
+                "input.cpp:InputError null-reference strncpy with terminator")
+    x.need(int(m2.group(1)) == int(m2.group(2)) and int(m2.group(2)) < int(m.group(1)), "input.cpp:InputError null-reference copy stays inside buf and is terminated")
+    w.append("def diagWhatNullCopy : Nat := %s  -- strncpy(buf, message, n); buf[n] = 0" % m2.group(1))
 
     pl = x.strip_comments(x.src("player.cpp"))
     body = fn_body(pl, r"void\s+Basic_Player::stack_push\s*\(", "player.cpp:stack_push", x)
